@@ -6,6 +6,7 @@ import (
 	"regexp"
 	"sort"
 	"strings"
+	"time"
 
 	"github.com/nyaruka/gocommon/i18n"
 	"github.com/nyaruka/gocommon/urns"
@@ -78,7 +79,9 @@ func genC19URNs(r *Rng) []c19URN {
 	var out []c19URN
 	for i := 0; i < n; i++ {
 		var u c19URN
-		switch r.Intn(7) {
+		switch r.Intn(8) {
+		case 7:
+			u = c19URN{scheme: Pick(r, []string{"discord", "instagram", "vk"}), pathA: fmt.Sprint(31000+r.Intn(1000)), pathB: fmt.Sprint(92000+r.Intn(1000))}
 		case 0, 1, 2:
 			u = c19URN{scheme: "tel", pathA: fmt.Sprintf("+1206555%04d", r.Intn(10000)), pathB: fmt.Sprintf("+1206777%04d", r.Intn(10000))}
 			if r.Chance(30) {
@@ -179,9 +182,9 @@ func c19Run(env envs.Environment, us []c19URN, b bool, name string, trigger stri
 	}
 	restore := setDeterministic(19)
 	defer restore()
-	contact := flows.NewEmptyContact(sa, name, i18n.Language("eng"), nil)
-	for _, u := range us {
-		contact.AddURN(u.raw(b), nil)
+	contact, err := c19Contact(sa, us, b, name)
+	if err != nil {
+		return nil, err
 	}
 	obs := &c19Obs{paths: map[string]string{}}
 	msgURN := urns.URN("tel:+12065550000")
@@ -247,6 +250,133 @@ func c19Run(env envs.Environment, us []c19URN, b bool, name string, trigger stri
 	return obs, nil
 }
 
+func c19Contact(sa flows.SessionAssets, us []c19URN, b bool, name string) (*flows.Contact, error) {
+	var raws []urns.URN
+	for _, u := range us {
+		raws = append(raws, u.raw(b))
+	}
+	return flows.NewContact(sa, flows.ContactUUID("5d76d86b-3bb9-4d5a-b822-c9d86f5d8e4f"), flows.ContactID(1234567), name, i18n.Language("eng"), flows.ContactStatusActive, nil,
+		time.Date(2020, 1, 1, 0, 0, 0, 0, time.UTC), nil, raws, nil, nil, nil, assets.IgnoreMissing)
+}
+
+var c19Sendable = map[string]bool{"tel": true, "twitter": true, "twitterid": true, "facebook": true, "whatsapp": true, "telegram": true, "mailto": true, "viber": true, "line": true}
+
+// the contact context of the implementation, in the model's vocabulary (schemes, paths and displays interned)
+func c19ModelOp(c *Ctx, env envs.Environment, redact bool, us []c19URN, b bool, name string, desc map[string]any) {
+	src, err := static.NewSource([]byte(c19Assets))
+	if err != nil {
+		return
+	}
+	sa, err := engine.NewSessionAssets(env, src, nil)
+	if err != nil {
+		return
+	}
+	contact, err := c19Contact(sa, us, b, name)
+	if err != nil {
+		return
+	}
+	intern := map[string]int{"": 0}
+	id := func(s string) int {
+		if n, ok := intern[s]; ok {
+			return n
+		}
+		intern[s] = len(intern)
+		return intern[s]
+	}
+	schemeIDs := map[string]int{}
+	sid := func(s string) int {
+		if n, ok := schemeIDs[s]; ok {
+			return n
+		}
+		schemeIDs[s] = len(schemeIDs) + 1
+		return schemeIDs[s]
+	}
+	var enc, sendable []string
+	var order []string
+	for _, u := range us {
+		path, disp := u.pathA, u.dispA
+		if b {
+			path, disp = u.pathB, u.dispB
+		}
+		ch := "-"
+		if u.channel != "" {
+			ch = "1"
+		}
+		if _, seen := schemeIDs[u.scheme]; !seen {
+			order = append(order, u.scheme)
+		}
+		enc = append(enc, fmt.Sprintf("%d~%d~%d~%s", sid(u.scheme), id(path), id(disp), ch))
+	}
+	for sc, n := range schemeIDs {
+		if c19Sendable[sc] {
+			sendable = append(sendable, fmt.Sprint(n))
+		}
+	}
+	sort.Strings(sendable)
+	showReal := func(v types.XValue) string {
+		if v == nil {
+			return "-"
+		}
+		t, ok := v.(*types.XText)
+		if !ok {
+			return "?"
+		}
+		scheme, path, _, disp := urns.URN(t.Native()).ToParts()
+		if path == "********" {
+			return fmt.Sprintf("%d:*", sid(scheme))
+		}
+		return fmt.Sprintf("%d:%d~%d", sid(scheme), id(path), id(disp))
+	}
+	cx := contact.Context(env)
+	dflt := cx["__default__"].(*types.XText).Native()
+	var d string
+	switch {
+	case name != "":
+		d = "name:" + hx(dflt)
+	case redact:
+		d = "id:" + dflt
+	case len(us) == 0:
+		d = "nothing"
+		if dflt != "" {
+			d = "unexpected:" + dflt
+		}
+	default:
+		d = "unexpected:" + dflt
+		if dflt == us[0].raw(b).Format() {
+			path := us[0].pathA
+			if b {
+				path = us[0].pathB
+			}
+			d = fmt.Sprintf("urn:%d", id(path))
+		}
+	}
+	var all []string
+	if arr, ok := cx["urns"].(*types.XArray); ok {
+		for i := 0; i < arr.Count(); i++ {
+			all = append(all, showReal(arr.Get(i)))
+		}
+	}
+	mc := contact.URNs().MapContext(env)
+	var by []string
+	for _, sc := range order {
+		by = append(by, showReal(mc[sc]))
+	}
+	r01 := "0"
+	if redact {
+		r01 = "1"
+	}
+	orU := func(xs []string) string {
+		if len(xs) == 0 {
+			return "_"
+		}
+		return strings.Join(xs, ",")
+	}
+	nm := hx(name)
+	op := fmt.Sprintf("ctxview %s %s 1234567 %s %s", r01, nm, orU(enc), orU(sendable))
+	exp := fmt.Sprintf("default=%s urn=%s urns=%s by=%s", d, showReal(cx["urn"]), strings.Join(all, ","), strings.Join(by, ","))
+	c.Model("ctxview", op, exp, desc)
+}
+
 func runC19(c *Ctx) {
 	r := c.Rng
 	envOn := envs.NewBuilder().WithRedactionPolicy(envs.RedactionPolicyURNs).WithDefaultCountry("US").Build()
@@ -272,6 +402,8 @@ func runC19(c *Ctx) {
 			if policy == "none" {
 				env = envOff
 			}
+			c19ModelOp(c, env, policy == "urns", us, false, name, desc)
+			c19ModelOp(c, env, policy == "urns", us, true, name, desc)
 			var a, b *c19Obs
 			var ea, eb error
 			if c.Guard("M-noninterference", "panic:session", desc, func() {
@@ -328,7 +460,7 @@ func runC19(c *Ctx) {
 				}
 				// contacts without a name are shown by id
 				if name == "" {
-					if v := a.paths["start/run0/tpl:@contact"]; v != "0" && v != "" {
+					if v := a.paths["start/run0/tpl:@contact"]; v != "1234567" {
 						c.Fail("monitor", "M-nameless-by-id", "nameless-not-by-id", fmt.Sprintf("a contact without a name renders as %q instead of its id", v), desc)
 					}
 				}
